@@ -2,6 +2,7 @@
 From Coq Require Import List Bool.
 From Minidyn Require Import Base.Str Base.FMap Base.Outcome Model.Value Model.Key Model.Index Model.Table.
 From Minidyn Require Import Proofs.TableInv Proofs.Search.
+From Minidyn Require Import Model.Client Proofs.StartKey.
 Import ListNotations.
 
 (* An unlimited read of the base table evaluates the request's expressions on every stored item, in key order
@@ -48,3 +49,14 @@ Proof. exact sorted_refs_In. Qed.
 Theorem C02_index_entries_strictly_ordered :
   forall refs, wf refs -> Sorted.StronglySorted rlt (asc_refs refs).
 Proof. exact asc_refs_strict. Qed.
+
+(* Count equals the number of items returned, for every Query and every Scan (any table, index, expressions, limit) *)
+Theorem C02_query_count_is_number_of_items :
+  forall lm sdk c tn ix kc fl names vals lim esk fw proj its n lek,
+    o_pay (snd (query_op lm sdk c tn ix kc fl names vals lim esk fw proj)) = PItems its n lek -> n = List.length its.
+Proof. exact query_count_is_length. Qed.
+
+Theorem C02_scan_count_is_number_of_items :
+  forall lm sdk c tn ix fl names vals lim esk proj its n lek,
+    o_pay (snd (scan_op lm sdk c tn ix fl names vals lim esk proj)) = PItems its n lek -> n = List.length its.
+Proof. exact scan_count_is_length. Qed.
